@@ -219,10 +219,10 @@ def main(argv=None):
             harness_errors.append("refuted without parsable counterexample: %s: %s" % (n, r.get("message", "")[:500]))
         if r.get("verdict") == "ERROR":
             harness_errors.append("worker error in %s: %s" % (n, r.get("message", "")[:800]))
-        if r.get("verdict") == "PRE_UNSAT" and getattr(o, "is_cube", False) and not o.examples:
+        if r.get("verdict") == "PRE_UNSAT" and getattr(o, "is_cube", False) and not o.examples and r.get("pre_sat") is False:
             r["verdict"] = "EMPTY_CUBE"
             continue
-        if r.get("verdict") == "PRE_UNSAT" and getattr(o, "excluded", None):
+        if r.get("verdict") == "PRE_UNSAT" and getattr(o, "excluded", None) and r.get("pre_sat") is False:
             # the whole input space of this obligation lies inside a recorded known-finding region (witness replayed above)
             r["verdict"] = "EXCLUDED_KNOWN_FINDING"
             continue
